@@ -17,17 +17,23 @@ def mock(rec, el=None):
     from cherab.core.atomic import AtomicData
     from cherab.core.atomic import rates as R
 
+    # the rates answer with the spec's numbers only at the documented arguments (n_e, T_e) of the harness' evaluation points;
+    # anywhere else each family is off by its own factor, so that an argument mix-up changes the balance
+    def at(v, wrong, ne, te):
+        ok = abs(ne - 3.0e19) <= 1e-9 * 3.0e19 and min(abs(te - 123.0), abs(te - 246.0)) <= 1e-9 * 123.0
+        return v if ok else wrong * v
+
     class K2(R.IonisationRate):
         def __init__(self, v): self.v = v
-        def evaluate(self, ne, te): return self.v
+        def evaluate(self, ne, te): return at(self.v, 3.3, ne, te)
 
     class KR(R.RecombinationRate):
         def __init__(self, v): self.v = v
-        def evaluate(self, ne, te): return self.v
+        def evaluate(self, ne, te): return at(self.v, 0.7, ne, te)
 
     class KC(R.ThermalCXRate):
         def __init__(self, v): self.v = v
-        def evaluate(self, ne, te): return self.v
+        def evaluate(self, ne, te): return at(self.v, 1.9, ne, te)
 
     class A(AtomicData):
         def ionisation_rate(self, ion, charge): return K2((rec["S"][charge] if ion is el else 1 + charge % 2) * UNIT)
